@@ -305,6 +305,18 @@ fn build(segs: Vec<SegRaw>, fin: u16, fin_seg: SegRaw, header: Header, cap_sel: 
     // lengths in codewords of everything after the header, and start offsets of EDIFACT groups
     let mut len_cw = 0usize;
     let mut edifact_group_starts: Vec<usize> = Vec::new();
+    // one script in sixteen starts with a well-known byte sequence carried by plain ASCII codewords
+    if let Some(first) = segs.first() {
+        if first.seeds[23] % 16 == 5 && cs != Charset::Ascii7 {
+            let toks: [&[u8]; 6] = [b"\xEF\xBB\xBF", b"\xFF\xFE", b"\xFE\xFF", b"]d2", b"\xEF\xBB", b"\xA0\xEF\xBB\xBF"];
+            for b in toks[(first.seeds[22] % 6) as usize] {
+                let ch = restrict(cs, *b);
+                data.push(ch);
+                steps.push(Step::A1);
+                len_cw += if ch < 128 { 1 } else { 2 };
+            }
+        }
+    }
     let x12_ok = |b: u8| x12_value(b).is_some();
     let vals = |text: bool, ch: u8| c40_values(text, ch).len();
     for s in &segs {
